@@ -62,7 +62,7 @@ def gen_url(rng):
     return lead + sch + rng.choice(SEPS) + rng.choice(REST) + rng.choice(["", "", " ", "\n", "\x00"])
 
 
-CSS_VALUES = ["color: red", "background: url(javascript:alert(1))", "background: URL( 'x' )", "background:u\\rl(x)", "width: expression(alert(1))",
+CSS_VALUES = ["cursor: URL(x)", "cursor: Url(evil_host)", "width: expression(alert)", "cursor: uRl(a_b), auto", "color: URL(x)", "color: red", "background: url(javascript:alert(1))", "background: URL( 'x' )", "background:u\\rl(x)", "width: expression(alert(1))",
               "background-image: url(\"x\")", "color: red; background: url(x)", "x: y", "-moz-binding: url(x)", "color: r\\65 d",
               "background: url( 1 2 )", "background: #fff url(x) no-repeat", "margin: 1px 2em 3% 4pt", "border: 1px solid red",
               "padding: 0 auto", "font-family: 'a b', \"c\"", "color: red; ; ;", "color:red;width:1px", "COLOR: RED", "color : red ;",
@@ -336,7 +336,8 @@ def run_case(ctx, case):
         ctx.count("streams:" + ("default-lists" if not kw else "restricted-lists"))
 
 
-SEEDS = ["<a href=\"/ok\" ping=\"javascript:alert(1)\">x</a>", "<a ping=\"/ok\" href=\"javascript:alert(1)\">x</a>",
+SEEDS = ["<a href=\"javascript://\u2100/%0aalert(1)\">x</a>", "<img src=\"javascript://\uff03/x\">", "<a href=\"JaVa&#9;Script://\u2100/%0aalert(1)\">x</a>",
+         "<a href=\"vbscript://x\uff1ay/z\">x</a>", "<p style=\"cursor: URL(x)\">x", "<p style=\"width: expression(alert)\">x", "<a href=\"/ok\" ping=\"javascript:alert(1)\">x</a>", "<a ping=\"/ok\" href=\"javascript:alert(1)\">x</a>",
          "<a ping=\"javascript:alert(1)\" href=\"http://[::1\">x</a>", "<a href=\"javascript:alert(1)\" ping=\"http://[::1\">x</a>",
          "<img src=\"x.png\" longdesc=\"vbscript:x\" lowsrc=\"data:text/html,x\" dynsrc=\"\">", "<a href=\"javascript:alert(1)\">x</a>", "<a href=\"jav&#x09;ascript:alert(1)\">x", "<a href=\" &#14; javascript:alert(1)\">x",
          "<img src=\"data:text/html,x\">", "<img src=\"data:image/png;base64,AAAA\">", "<img src=\"data:,x\">", "<a href=\"javascript&colon;alert(1)\">x",
